@@ -13,7 +13,7 @@ RULE = (
     "another reference; state = (template shape, line)"
 )
 BOUNDS = {
-    "quick": "all well-formed chunk sequences of length <=3 over 10 text chunks + 9 references; 2 files x plain, 1 file x onmatch/once for templates of length <=2",
+    "quick": "every name-terminating punctuation character (23) directly after each of 9 reference forms, followed by text and by another reference; all well-formed chunk sequences of length <=3 over 10 text chunks + 9 references; 2 files x plain, 1 file x onmatch/once for templates of length <=2",
     "thorough": "all well-formed chunk sequences of length <=4 over 10 text chunks + 6 references, length <=3 over 13 references, length 5 over 4 text chunks + 4 references; 3 files x 6 forms (length >=4: one file, plain form)",
 }
 CHUNK = 250
@@ -60,7 +60,20 @@ def templates(maxlen, refs, texts=None):
                 yield seq
 
 
+PUNCT = "!^:,;%()-+@#{}[]&<>/|?'"  # every punctuation character that ends a reference name (besides '.', whitespace, '$', '"')
+
+
+def punct_cases():
+    """each punctuation character directly after each reference form, followed by text / by another reference."""
+    refs = REFS6 + [["r", "headers", "1"], ["r", "headers", "77"], ["r", "variables", "s", "0"]]
+    for ch in PUNCT:
+        for r in refs:
+            yield {"t": [r, ["t", ch + "z"]], "file": 0, "form": "plain"}
+            yield {"t": [["t", "a "], r, ["t", ch], REFS6[0]], "file": 1, "form": "plain"}
+
+
 def cases(tier, seed):
+    yield from punct_cases()
     if tier == "quick":
         for t in templates(3, REFS6 + [["r", "headers", "1"], ["r", "headers", "x y"], ["r", "headers", "77"]]):
             yield {"t": t, "file": 0, "form": "plain"}
